@@ -242,6 +242,14 @@ def _refs(var, sub=False):
         refs["view"] = {"transform": {"insertions": var.view_insertions}}
     if sub:
         refs["subreferences"] = [_item_refs(it) for it in var.items]
+        derived = [it for it in var.items if it.get("derived")]
+        if derived and "view" not in refs:
+            # as the server does: the variable's view lists the definitions of its derived items
+            refs["view"] = {"transform": {"insertions": [
+                {"function": "any_selected", "name": it["name"], "anchor": it.get("anchor"),
+                 "kwargs": {"variable": var.alias,
+                            "subvariable_ids": [var.items[m]["alias"] for m in it.get("members", ())]}}
+                for it in derived]}}
     return refs
 
 
